@@ -244,9 +244,13 @@ def check_distinct(facts, rep, RULE):
             if n.get("k") in ("if", "letx") or (n.get("k") == "match"):
                 pass
         # a test over the sanitised names (`.name`) of the collected properties that returns Err
+        def reads_prop_name(e):
+            return any(x.get("k") == "field" and x["name"] == "name" and (c.ty(x.get("bty")) or "").replace("&", "").strip().endswith("StructProperty") for x, _ in walk(e))
         for n, _ in nodes(h["body"], "if"):
-            cs = src(n["cond"])
-            if "properties" in cs and ".name" in cs and outcome(n["then"]) == "ret-err":
+            if outcome(n["then"]) != "ret-err":
+                continue
+            # two properties' identifiers are compared for equality and a hit is an error
+            if any(x.get("k") == "bin" and x["op"] == "Eq" and reads_prop_name(x["l"]) and reads_prop_name(x["r"]) for x, _ in walk(n["cond"])):
                 found = n
         rep.ob(RULE, "properties-distinct-before-commit", found is not None,
                "colliding property identifiers are rejected: `%s`" % src(found["cond"])[:90] if found else
